@@ -1,5 +1,6 @@
 //! unit: u13
-//! properties: C13
+//! properties: C13 C17 C12
+//! note: the node_announcement codec is also the one the network graph stores relayed announcements with (NodeAnnouncementInfo::Relayed), so its clauses are run for C17 and C12 as well
 //! note: node_announcement address descriptors: SocketAddress::len() (the value written into / checked against the addresses length field) equals the number of bytes SocketAddress::write() emits after the type byte, for every address including 255-byte hostnames
 //! trusted: R15 (deep slices): QueryShortChannelIds / ReplyChannelRange read and write: the validity test and count derived from encoding_len, and the encoding_len expression written, verbatim (Self is a skeleton holding the id list)
 //! assume: a message we build holds at most 8191 short channel ids (`len() as u16 * 8 + 1` is computed in u16; a peer message is at most 65535 bytes)
@@ -55,7 +56,7 @@ impl SocketAddress {
 //@ret r
 //@requires
     addr_ok(*self),
-//@ensures P C13 the-address-length-accounted-for-every-descriptor-is-its-wire-size-including-255-byte-hostnames
+//@ensures P C13,C17,C12 the-address-length-accounted-for-every-descriptor-is-its-wire-size-including-255-byte-hostnames
     r as int == descriptor_len(*self),
 //@mutant hostname_length_added_in_u8
     u16::from(hostname.len()) + 3
@@ -147,7 +148,7 @@ pub proof fn lemma_descriptors_push(s: Seq<SocketAddress>, a: SocketAddress)
 //@ret res
 //@requires
     0 <= old(r).consumed@ <= old(r).limit@ <= 65535,
-//@ensures P C13 the-address-descriptors-accepted-from-a-node-announcement-never-extend-past-the-declared-addrlen
+//@ensures P C13,C17,C12 the-address-descriptors-accepted-from-a-node-announcement-never-extend-past-the-declared-addrlen
     res matches Ok(t) ==> t.1 as int == descriptors_len(t.0@) && t.1 <= addr_len
         && final(r).consumed@ == old(r).consumed@ + t.1 + (if t.2 { 1int } else { 0 }) && (t.2 ==> t.1 < addr_len),
 //@mutant descriptor_type_byte_left_out_of_the_bound
@@ -193,7 +194,7 @@ pub struct ByteReader { pub rest: Ghost<Seq<u8>> }
 //@ret res
 //@requires
     addr_readpos <= addr_len,
-//@ensures P C13 the-bytes-after-the-known-addresses-are-kept-in-the-order-they-are-written-back
+//@ensures P C13,C17,C12 the-bytes-after-the-known-addresses-are-kept-in-the-order-they-are-written-back
     res matches Ok(t) ==> t.0@.len() == addr_len - addr_readpos
         && t.0@ + t.1@ =~= (if excess { seq![excess_byte] } else { Seq::<u8>::empty() }) + old(r).rest@,
 //@mutant unknown_descriptor_type_byte_put_after_the_address_region
